@@ -760,7 +760,8 @@ def randomize_params(rng, lik, noise_lo=1e-6, noise_hi=1.0, span=2.0, span_hi=No
     for name, shape in zip(conv.names, conv.shapes):
         lo, hi = box.get(name, (None, None))
         lo = -span if lo is None else max(float(lo), -span)
-        hi = (span if span_hi is None else span_hi) if hi is None else min(float(hi), span if span_hi is None else span_hi)
+        wide = span_hi if (span_hi is not None and "inverse_bandwidth" in name) else span   # (a large covariance scale over a
+        hi = wide if hi is None else min(float(hi), wide)                                   # small noise variance is ill-conditioned)
         if "noise_variance" in name:
             lo, hi = math.log(noise_lo), math.log(noise_hi)
         for _ in range(int(sum(shape))):
@@ -869,8 +870,10 @@ def run_e2e08(spec):
         k.set_params(dict(pd0))
         K_again = kmat(X, X)
         pd1 = k.get_params()
-        if set(pd0) != set(pd1) or any(abs(float(pd0[q]) - float(pd1[q])) > 1e-12 * max(1.0, abs(float(pd0[q]))) for q in pd0) \
-                or float(np.max(np.abs(K_again - K))) > 1e-12 * max(1.0, float(np.abs(K).max())):
+        # (softrelu and its inverse are not exact inverses in floating point for large arguments: 1e-9 / 1e-7 there)
+        ptol, ktol = (1e-9, 1e-7) if spec.get("encoding") == "positive" else (1e-12, 1e-12)
+        if set(pd0) != set(pd1) or any(abs(float(pd0[q]) - float(pd1[q])) > ptol * max(1.0, abs(float(pd0[q]))) for q in pd0) \
+                or float(np.max(np.abs(K_again - K))) > ktol * max(1.0, float(np.abs(K).max())):
             mon.append(F("c08:kernel-params-roundtrip", f"kernel {kind} (dimension {X.shape[1]}): set_params(get_params()) changes the kernel "
                          f"(max deviation of k(X, X): {float(np.max(np.abs(K_again - K))):.3e})", {"spec": spec}))
         hist["params_roundtrip"] = 1
@@ -989,7 +992,7 @@ def run_e2e08(spec):
     for j in range(m if m > 1 else 0):
         sj = GaussProcPosteriorState(X, Y[:, [j]], mean, karg, noise_variance=noise)
         mj, vj = sj.predict(Xs)
-        if not (np.allclose(np.asarray(mj).reshape(-1), means[:, j], rtol=1e-10, atol=1e-12 * ymag) and
+        if not (np.allclose(np.asarray(mj).reshape(-1), means[:, j], rtol=max(1e-10, rel), atol=max(1e-12, rel) * ymag) and
                 np.allclose(np.asarray(vj), variances, rtol=1e-12, atol=0)):
             mon.append(F("c08:fantasy-columns-dependent", f"column {j} of the fantasy predictions differs from the single-target prediction", {"spec": spec}))
     # update = recompute
